@@ -5,6 +5,7 @@ import (
 	"fmt"
 	"mime"
 	"strings"
+	"unicode/utf8"
 )
 
 // Reference decoders for C12, written from the documentation of package
@@ -124,6 +125,11 @@ func (d *refHdr) Next() expect {
 		if name == "" || strings.TrimSpace(name) != name {
 			unspec = "whitespace around or empty field name"
 		}
+		for _, ch := range []byte(name) {
+			if !(ch >= 'a' && ch <= 'z' || ch >= 'A' && ch <= 'Z' || ch >= '0' && ch <= '9' || strings.IndexByte("!#$%&'*+-.^_`|~", ch) >= 0) {
+				unspec = "field name with characters outside the token set"
+			}
+		}
 		v := strings.TrimPrefix(val, " ")
 		if strings.TrimSpace(v) != v {
 			unspec = "unusual whitespace around a field value"
@@ -159,6 +165,11 @@ func (d *refHdr) Next() expect {
 			return expect{Kind: xUnspec, Why: "negative zero Content-Length"}
 		}
 		return expect{Kind: xError, Why: "Content-Length is not a non-negative decimal number"}
+	}
+	if len(cl) > 18 || (len(cl) > 1 && cl[0] == '0') {
+		// an implementation may bound the digits it reads, or refuse a padded number
+		d.lost = true
+		return expect{Kind: xUnspec, Why: "Content-Length with leading zeros or more than 18 digits"}
 	}
 	// the declared length, saturating
 	n := 0
@@ -231,6 +242,12 @@ func (d *refJSON) Next() expect {
 	case jsOK:
 		rec := d.s[d.pos:end]
 		d.pos = end
+		if !utf8.Valid(rec) || bytes.Contains(rec, []byte(`\ud`)) || bytes.Contains(rec, []byte(`\uD`)) {
+			// JSON text is UTF-8 (RFC 8259 8.1) and escapes of surrogates must pair
+			// up: a framing may refuse a value that is only "structurally" valid
+			d.lost = true
+			return expect{Kind: xUnspec, Why: "JSON value with invalid UTF-8 or surrogate escapes"}
+		}
 		return expect{Kind: xRecord, Rec: rec}
 	case jsTruncated:
 		d.pos = len(d.s)
